@@ -213,12 +213,19 @@ static void op_puff (void)
   unsigned char *dest = nil ? NULL : (unsigned char *) malloc (destlen);   /* exactly destlen bytes */
   unsigned char *srcx = (unsigned char *) malloc (sourcelen);       /* exactly sourcelen bytes: overreads are seen by ASan */
   int rc;
+  unsigned long destlen0 = destlen, sourcelen0 = sourcelen;
   memcpy (srcx, src, sourcelen < n ? sourcelen : n);
   rc = sc_puff (dest, &destlen, srcx, &sourcelen);
   putnum (rc);
   if (rc == 0) {
     printf (" %lx %lx ", destlen, sourcelen);
     if (nil) printf ("-"); else puthex (dest, destlen);
+  }
+  else {
+    /* documented in sc_puff.c: a positive code leaves both lengths alone; a negative one stores the counters,
+       which never exceed what was offered (markers only when that is broken: the line is otherwise unchanged) */
+    if (rc > 0 && (destlen != destlen0 || sourcelen != sourcelen0)) printf (" LEN-CHANGED");
+    if (rc < 0 && ((!nil && destlen > destlen0) || sourcelen > sourcelen0)) printf (" LEN-RANGE");
   }
   free (dest); free (srcx); free (src);
 }
